@@ -38,6 +38,9 @@ func GenerateRegoRule(rule profile.RegoRule, iriExpander *misc.IriExpander) []Si
 	text := rule.Argument
 	text = strings.ReplaceAll(text, "$result", resultVariable)
 	text = strings.ReplaceAll(text, "$node", checkVariable)
+	// the message can be defined in the custom rego code, only there $message is a template variable
+	customMessage := strings.Contains(text, "$message")
+	text = strings.ReplaceAll(text, "$message", "message")
 
 	if strings.Contains(text, "$traceNode") {
 		focusNodeVariable := profile.Genvar("result_focus_node")
@@ -61,13 +64,14 @@ func GenerateRegoRule(rule profile.RegoRule, iriExpander *misc.IriExpander) []Si
 		panic(err)
 	}
 	r := SimpleRegoResult{
-		Constraint: "rego",
-		Rego:       rego,
-		PathRules:  []RegoPathResult{pathResult}, // this can be an empty path result
-		Path:       tracePath,
-		Variable:   checkVariable,
-		TraceNode:  traceNode,
-		TraceValue: BuildTraceValueNode(fmt.Sprintf("\"negated\":%t", rule.Negated)),
+		Constraint:    "rego",
+		Rego:          rego,
+		PathRules:     []RegoPathResult{pathResult}, // this can be an empty path result
+		Path:          tracePath,
+		Variable:      checkVariable,
+		TraceNode:     traceNode,
+		TraceValue:    BuildTraceValueNode(fmt.Sprintf("\"negated\":%t", rule.Negated)),
+		CustomMessage: customMessage,
 	}
 	return []SimpleRegoResult{r}
 }
